@@ -16,6 +16,12 @@ CHECKS = {
             "DESIGN.md section 3, C15"),
 }
 
+CHECKS["C05"] = ("model_checking",
+    "stateless deviation-bounded exploration (every placement of <=D non-default answers of the user's iteration) of the real SimulationRunner.simulate() against a reference interpreter",
+    "For every configuration of a finite family (parameter grids with 0-3 unpacked parameters, rep_max 1..4(5), every Boolean stop predicate on the repetition index and thresholds on the merged result, modes all/single index/simulate twice) EVERY answer vector of the scripted _run_simulation with at most D deviations (value change or SkipThisOne; D=3/2/1 quick, 4/3/2 thorough by size) is executed to completion on the implementation; exact call log, repetition counts, merged values, update and skip counts and all look-ups by fixed values are compared with the reference interpreter of the documented loop.",
+    "Trusted: the reference interpreter in models/runner_model.py (30 lines). Not covered: parameter lists with duplicate values, simulate_in_parallel (needs an ipyparallel cluster), answer vectors with more deviations than the bound.",
+    "DESIGN.md section 3, C05")
+
 NOT_YET = {}
 
 
